@@ -140,9 +140,10 @@ def install():
         flt = hit('sort_worker' if not in_main() else 'sort')
         if flt:
             if flt.get('kind') in ('partial', 'base_partial'):
-                o = out_of(args)
-                with open(o, 'wb') as fh:
-                    fh.write(open(args[-2], 'rb').read()[:60])
+                # the sort wrote part of its result (a well-formed, indexable BAM with half of the
+                # records) before it failed, e.g. disk full
+                ORIG['sort'](*args, **kw)
+                keep_half(out_of(args))
             boom(flt)
         return ORIG['sort'](*args, **kw)
 
@@ -158,8 +159,8 @@ def install():
         flt = hit('pysam_merge')
         if flt:
             if flt.get('kind') in ('partial', 'base_partial'):
-                with open(args[0], 'wb') as fh:
-                    fh.write(open(args[1], 'rb').read()[:60])
+                ORIG['merge'](*args, **kw)
+                keep_half(args[0])
             boom(flt)
         return ORIG['merge'](*args, **kw)
 
@@ -270,6 +271,18 @@ def install():
     return tm
 
 
+def keep_half(path):
+    """rewrite a BAM with the first half of its records (at least one record is dropped)"""
+    import pysam
+    with pysam.AlignmentFile(path) as f:
+        header = f.header
+        recs = list(f)
+    keep = recs[:len(recs) // 2]
+    with pysam.AlignmentFile(path, 'wb', header=header) as o:
+        for r in keep:
+            o.write(r)
+
+
 def worker_entry(args):
     """replaces run_tagging_tasks in the pool (module level: picklable by name)"""
     with SHARED.get_lock():
@@ -295,7 +308,7 @@ def read_bam(path):
                 res['so_header'] = f.header.to_dict().get('HD', {}).get('SO')
                 recs, order = [], []
                 for r in f:
-                    recs.append('%s|%d|%s|%d' % (r.query_name, r.flag, r.reference_name, r.reference_start))
+                    recs.append('%s|%d|%s|%d' % (r.query_name, r.flag & 0x9C0, r.reference_name, r.reference_start))
                     order.append((r.reference_id if r.reference_id >= 0 else 1 << 30, r.reference_start))
                 res['n'] = len(recs)
                 res['recs'] = sorted(recs)
@@ -405,6 +418,57 @@ def prepare_inputs(scratch, repo, small_n):
             o.write(pysam.AlignedSegment.from_dict(r, header))
     ORIG['index'](dst) if 'index' in ORIG else pysam.index(dst)
     INPUTS['nla'] = dst
+    mc = os.path.join(scratch, 'in_nla_multi_contig.bam')
+    make_multi_contig(dst, mc)
+    INPUTS['nla_mc'] = mc
+
+
+def make_multi_contig(src, dst):
+    """the records of src spread over two small contigs (<100 kb), the original contig and a third small
+    contig, in that header order; both reads of a pair stay together; positions on the small contigs are
+    shifted to start near 0.  Exercises the job construction of --one_contig_per_process (small contigs
+    are grouped into one job with several tasks)."""
+    import pysam
+    with pysam.AlignmentFile(src) as f:
+        hd = f.header.to_dict()
+        recs = [r.to_dict() for r in f.fetch(until_eof=True)]
+    names = []
+    for r in recs:
+        if r['name'] not in names:
+            names.append(r['name'])
+    big = hd['SQ'][0]
+    n = len(names)
+    cut = [n // 6, n // 3, (5 * n) // 6]
+    contigs = ['scaf1', 'scaf2', big['SN'], 'scaf3']
+
+    def group(name):
+        i = names.index(name)
+        return 0 if i < cut[0] else 1 if i < cut[1] else 2 if i < cut[2] else 3
+    hd['SQ'] = [{'SN': 'scaf1', 'LN': 50000}, {'SN': 'scaf2', 'LN': 60000}, big, {'SN': 'scaf3', 'LN': 70000}]
+    header = pysam.AlignmentHeader.from_dict(hd)
+    offs = {}
+    for r in recs:
+        g = group(r['name'])
+        if g != 2 and r['ref_name'] != '*':
+            offs[g] = min(offs.get(g, 1 << 60), int(r['ref_pos']))
+    out = []
+    for r in recs:
+        g = group(r['name'])
+        if r['ref_name'] != '*':
+            r['ref_name'] = contigs[g]
+            if g != 2:
+                r['ref_pos'] = str(int(r['ref_pos']) - offs[g] + 1)
+        if r['next_ref_name'] != '*':
+            # the mate is in the same group
+            if g != 2 and r['next_ref_pos'] != '0':
+                r['next_ref_pos'] = str(max(1, int(r['next_ref_pos']) - offs[g] + 1))
+            r['next_ref_name'] = '=' if r['ref_name'] != '*' else contigs[g]
+        out.append((g if r['ref_name'] != '*' else 9, int(r['ref_pos']), r))
+    out.sort(key=lambda t: (t[0], t[1]))
+    with pysam.AlignmentFile(dst, 'wb', header=header) as o:
+        for _, _, r in out:
+            o.write(pysam.AlignedSegment.from_dict(r, header))
+    ORIG['index'](dst) if 'index' in ORIG else pysam.index(dst)
 
 
 def write_version(src, dst, n_reads=None, move_from=None):
@@ -596,6 +660,11 @@ def handler(p):
         raised, err, counts, jobs, mols = run_tagger(tm, case, d, o, [])
         info = read_bam(o) if os.path.exists(o) else {'recs': None, 'n': 0}
         obs = observe(d, o, info['recs'])
+        rc = case.get('ref_config')
+        if rc:
+            # "every record" for a --multiprocess run = what the serial run writes for the same options
+            info = dict(info, recs=refs[rc]['recs'], n=len(refs[rc]['recs'] or []))
+            obs = observe(d, o, info['recs'])
         refs[key] = {'dir': d, 'recs': info['recs']}
         out['refs'][key] = {'raised': raised, 'error': err, 'world': obs['world'], 'n_records': info['n'],
                             'molecules': mols, 'jobs': jobs, 'calls': counts, 'seconds': round(time.time() - t0, 2),
